@@ -14,7 +14,7 @@
  *   utt <off> <len> <cmn|->                    utt rv=<r> cmnframes=<n> | <st>
  *   p <i|f> <n> <nosearch> [full]              p rv=<r> fe=<lim>:<nvec>:<left>,.. sc=<pass><frame>:<idx>:<hash>,.. | <st>
  *                                              ([full]: full_utt = 1; the frame-count query fe_process(.., NULL, ..) is logged as e<count>)
- *   q <hyp|seg|align>                          q <digest> fe=.. sc=.. | <st>
+ *   q <hyp|seg|align|ralign>                   q <digest> fe=.. sc=.. | <st>   (ralign: decoder_alignment even without a hypothesis)
  *   end                                        end rv=<r> ovf=<overflow samples before fe_end> fsz=<frame_size> fe=.. sc=.. | <st>
  *   res                                        res ... (full record, see print_result)
  *   probe-d9                                   (child process) feeds one 40000-sample call to the front end
@@ -380,6 +380,15 @@ int main(void)
                     printf(" al=%d", al ? alignment_n_words(al) : -1);
                 } else
                     printf(" al=skip");
+            } else if (!strcmp(w[1], "ralign")) {
+                /* decoder_alignment whatever the state of the search: when there is no hypothesis yet (or only null
+                 * transitions) the request is REFUSED (NULL) -- a refused query is a query all the same, it must
+                 * leave the utterance as it was (al=-1 = refused) */
+                alignment_t *al;
+                in_align = 1;
+                al = decoder_alignment(dec);
+                in_align = 0;
+                printf(" al=%d", al ? alignment_n_words(al) : -1);
             }
             print_logs();
             print_st();
